@@ -4,7 +4,7 @@ package main
 
 func init() {
 	props["C01"] = &propSpec{
-		Rules:      []string{"C01-a", "C01-b", "C01-e", "C01-f", "C19-f", "C19-g", "C01-g"},
+		Rules:      []string{"C01-a", "C01-b", "C01-e", "C01-f", "C19-f", "C19-g", "C01-g", "C16-a"},
 		Decides:    "Decides, on every path of every production function, structural necessary conditions of 'no row is dropped, truncated or altered': no error from the sorter / ingest / object store / on-disk index is dropped. It does not decide equality of stored and input rows (value-dependent); level 'other' because it is exhaustive over code paths but establishes a necessary condition only. Also decided: the workers' blocks are sorted by offset on every path before the table's block list is built, and the ingest CSV reader is configured only with loss-free options.",
 		NotDecided: "equality of the stored row set with the input row set, key order, de-duplication correctness, export fidelity (value-dependent).",
 	}
@@ -14,12 +14,12 @@ func init() {
 		NotDecided: "decode(encode(x)) = x for all x; the packfile varint header arithmetic.",
 	}
 	props["C07"] = &propSpec{
-		Rules:      []string{"C07-a", "C07-b", "C07-c", "C07-d", "C07-f", "C06-a", "C13-a", "C13-h", "C17-f", "C17-g", "C09-h", "C09-i", "C16-i"},
+		Rules:      []string{"C07-a", "C07-b", "C07-c", "C07-d", "C07-f", "C06-a", "C13-a", "C13-h", "C17-f", "C17-g", "C09-h", "C09-i", "C16-i", "C08-c"},
 		Decides:    "Decides the receiver's validation/ordering mechanisms and the sender's queue order on every path: received blocks are stored only after ValidateBlockBytes succeeded on the same buffer and under the hash of the decompressed bytes; a commit is stored only after every parent was found; rebuilt block-index sums are compared with the table's recorded sums before the table index is written; the sender appends blocks before their table and the commit after its table. Does not decide byte identity of the two stores or packfile splitting. Also decided: the sender passes the enqueue-next-commit step before leaving WriteObjects; the receiver writes the table object last and never skips its index.",
 		NotDecided: "byte identity of source and destination stores; packfile splitting arithmetic.",
 	}
 	props["C13"] = &propSpec{
-		Rules:      []string{"C13-a", "C13-b", "C13-c", "C13-g", "C13-h", "C13-i", "C07-b", "C09-a", "C09-g", "C12-e", "C15-c", "C13-j"},
+		Rules:      []string{"C13-a", "C13-b", "C13-c", "C13-g", "C13-h", "C13-i", "C07-b", "C09-a", "C09-g", "C12-e", "C15-c", "C13-j", "C13-k"},
 		Decides:    "Decides write-order necessary conditions of crash consistency on every path: no derived-index write after the table object (the table object is the commit point); the table is written only after the worker join and an empty error channel; every ref written by a function that saves a commit carries the sum returned by SaveCommit and lies behind its success edge; SQL multi-statement writes run on one *sql.Tx which commits only on success; plus the shared ordering rules of C07-b (no commit before its parents), C09-a (fetch refs after objects) and C12-e (prune deletes commits last). Does not enumerate crash points, does not decide repeatability; store atomicity is trusted. Also decided: SaveTable happens only after a successful table-index write (never skipped); prune deletes a table object before its derived objects; every successful fetch return has saved the refs.",
 		NotDecided: "repeatability of the operation after a crash; effects of a crash inside a multi-branch pull; atomicity of the underlying stores (trusted).",
 	}
@@ -34,7 +34,7 @@ func init() {
 		NotDecided: "completeness of the transferred history, object identity on both sides, idempotence of a repeated fetch/push.",
 	}
 	props["C12"] = &propSpec{
-		Rules:      []string{"C12-a", "C12-b", "C12-c", "C12-d", "C12-e", "C12-f", "C13-i", "C17-e", "C17-f"},
+		Rules:      []string{"C12-a", "C12-b", "C12-c", "C12-d", "C12-e", "C12-f", "C13-i", "C17-e", "C17-f", "C13-k", "C11-c", "C11-d"},
 		Decides:    "Decides structural mechanisms of prune safety on every path: roots come from an unfiltered ref listing; no ref/object-store error is dropped while marking; every delete lies under a not-marked edge of a []bool mark (commits: come from a list filled only under such an edge); every sort.Search hit is bounds-checked before use and equality-checked before a mark is written; commits are deleted in the last step. Does not decide that the marked set equals the reachable set (graph-valued). Also decided: configuration fields with a defaulting getter (transaction TTL) are read only through it; prune deletes the table object before its index and profile.",
 		NotDecided: "that the marked set equals the reachable set for every repository (graph-valued).",
 	}
